@@ -9,6 +9,7 @@ package core
 import (
 	"context"
 	"fmt"
+	"gitlab.com/aquachain/aquachain/core/state"
 	"math/big"
 	"math/rand"
 	"os"
@@ -204,6 +205,56 @@ func (n *vnode) insert(vs []*vblk) {
 	idx, err := n.guard(func() (int, error) { return n.bc.InsertChain(blocks) })
 	n.w.emit(map[string]interface{}{"e": "op", "op": "insert", "blocks": ids(vs), "idx": idx, "err": errClass(err),
 		"imported": n.importedSigs(vs), "obs": n.observe()})
+}
+
+// two sibling blocks written concurrently the way the miner's worker writes a sealed block (WriteBlockWithState, without the
+// import lock): both writers are started while the chain mutex is held, so that they queue up behind it, then released.
+func (n *vnode) concurrentWrite(a, b *vblk) {
+	type job struct {
+		blk      *types.Block
+		receipts types.Receipts
+		st       *state.StateDB
+	}
+	mk := func(v *vblk) (job, error) {
+		blk := types.NewBlockWithHeader(v.b.Header()).WithBody(v.b.Transactions(), v.b.Uncles())
+		st, err := n.bc.StateAt(v.parent.b.Root())
+		if err != nil {
+			return job{}, err
+		}
+		receipts, _, _, err := n.bc.Processor().Process(blk, st, vm.Config{})
+		return job{blk, receipts, st}, err
+	}
+	ja, erra := mk(a)
+	jb, errb := mk(b)
+	if erra != nil || errb != nil {
+		return
+	}
+	errs := make(chan error, 2)
+	_, err := n.guard(func() (int, error) {
+		n.bc.mu.Lock()
+		for _, j := range []job{ja, jb} {
+			j := j
+			go func() {
+				defer func() {
+					if r := recover(); r != nil {
+						errs <- fmt.Errorf("PANIC %v", r)
+					}
+				}()
+				_, e := n.bc.WriteBlockWithState(j.blk, j.receipts, j.st)
+				errs <- e
+			}()
+			time.Sleep(15 * time.Millisecond)
+		}
+		time.Sleep(30 * time.Millisecond)
+		n.bc.mu.Unlock()
+		e1, e2 := <-errs, <-errs
+		if e1 != nil {
+			return 0, e1
+		}
+		return 0, e2
+	})
+	n.w.emit(map[string]interface{}{"e": "op", "op": "insert", "blocks": ids([]*vblk{a, b}), "idx": 0, "err": errClass(err),
+		"imported": n.importedSigs([]*vblk{a, b}), "obs": n.observe(), "concurrent": true})
 }
 
 func (n *vnode) insertHeaders(vs []*vblk) {
@@ -517,12 +568,43 @@ func runTree(rng *rand.Rand, tr *vtree, w *vwriter, nHist int, rewind bool, emit
 		mode := []string{"archive", "pruning"}[h%2]
 		runRandomHistory(rng, tr, bw, mode, fmt.Sprintf("hist-%d", h), 6+rng.Intn(10), rewind && h%3 == 2, false)
 	}
+	runConcurrentWriters(rng, tr, bw)
 	runReferenceH(tr, bw, "archive", "headers-ref-single", false, true)
 	runRandomHistory(rng, tr, bw, "archive", "headers", 6+rng.Intn(6), true, true)
 	runCorruptions(rng, tr, bw, []string{"archive", "pruning"}[rng.Intn(2)], "corrupt", 1)
 	emitTree(tr)
 	for _, e := range buf.evs {
 		w.emit(e)
+	}
+}
+
+// at every fork point with two valid children: import the path to the parent, then write the two children concurrently through
+// the miner's write path, in both start orders
+func runConcurrentWriters(rng *rand.Rand, tr *vtree, w *vwriter) {
+	done := 0
+	for _, p := range tr.blocks {
+		var kids []*vblk
+		for _, c := range p.children {
+			if c.valid {
+				kids = append(kids, c)
+			}
+		}
+		if len(kids) < 2 || done >= 3 {
+			continue
+		}
+		done++
+		for order := 0; order < 2; order++ {
+			n := tr.newNode(w, "archive", fmt.Sprintf("cwrite-%s-%d", p.id, order))
+			if path := pathTo(p); len(path) > 0 {
+				n.insert(path)
+			}
+			a, b := kids[0], kids[1]
+			if order == 1 {
+				a, b = b, a
+			}
+			n.concurrentWrite(a, b)
+			n.stop()
+		}
 	}
 }
 
